@@ -8,6 +8,12 @@ by_commit = {}
 for e in kf:
     if e.get('commit'):
         by_commit.setdefault(e['commit'], e['property'])
+# reverts that a later repair turned into something the property tolerates (kept as controls: they must not give a harness error)
+EITHER = {
+    'revert_d7c0795': 'since a378371 (equilibrium solved in relative amounts) a network with dependent element balances no '
+                      'longer stalls silently under this revert: SLSQP runs to its iteration limit and get_net_comp warns, '
+                      'which the property accepts (failure signalled)',
+}
 cat_path = HERE + '/selftest/mutants/catalogue.json'
 cat = json.load(open(cat_path))
 cat['mutants'] = [m for m in cat['mutants'] if not m['name'].startswith('revert_')]
@@ -31,7 +37,11 @@ for line in log.splitlines():
         out = subprocess.run(['diff', '-ruN', 'a', 'b'], cwd=d, capture_output=True, text=True).stdout
         name = 'revert_%s' % sha
         open('%s/selftest/mutants/%s.patch' % (HERE, name), 'w').write(out)
-        cat['mutants'].append({'name': name, 'patch': name + '.patch', 'property': prop, 'note': 'revert of ' + subj})
+        ent = {'name': name, 'patch': name + '.patch', 'property': prop, 'note': 'revert of ' + subj}
+        if name in EITHER:
+            ent['expect'] = 'either'
+            ent['note'] += ' [' + EITHER[name] + ']'
+        cat['mutants'].append(ent)
         print('ok', name, prop)
     finally:
         shutil.rmtree(d, ignore_errors=True)
